@@ -257,6 +257,7 @@ pub fn execute(scn: &dyn Scenario, devs: &[Deviation], seed: u64) -> (Outcome, V
             mux: Arc::new(Mutex::new(BTreeMap::new())),
         };
         env_out = Some(env.clone());
+        wire.start_clock();
         let (root, j) = scn.start(env.clone());
         judge = Some(j);
         let h = env.spawn("main", 0, root);
